@@ -122,8 +122,15 @@ func (s *Store) Await(timeout time.Duration) error {
 			return nil
 		}
 
+		// return if the deadline has been reached (a non-positive timeout
+		// would make Wait block until the future is completed or cancelled)
+		remaining := deadline.Sub(time.Now())
+		if remaining <= 0 {
+			return ErrTimeout
+		}
+
 		// wait for next future to complete
-		err := next.Wait(deadline.Sub(time.Now()))
+		err := next.Wait(remaining)
 		if err != nil {
 			return err
 		}
